@@ -80,3 +80,99 @@ func helperFact(caller *ssa.Function, cond ssa.Value, val bool, fact FactFn, dep
 	}
 	return 0
 }
+
+// phiFact: cond is a boolean phi produced by && / || (`known := ok && a == b`).
+// The phi having value val can only come from the edges that are not the
+// opposite constant; if there is exactly one such edge, val implies that edge's
+// value being val and everything that guards the edge's predecessor block.
+func phiFact(cond ssa.Value, val bool, fact FactFn, depth int) int {
+	phi, ok := cond.(*ssa.Phi)
+	if !ok || depth > 2 || phi.Type().String() != "bool" {
+		return 0
+	}
+	idx := -1
+	for i, e := range phi.Edges {
+		if isBoolConst(e, !val) {
+			continue
+		}
+		if idx >= 0 {
+			return 0 // more than one way to get val
+		}
+		idx = i
+	}
+	if idx < 0 || idx >= len(phi.Block().Preds) {
+		return 0
+	}
+	e := phi.Edges[idx]
+	if !isBoolConst(e, val) {
+		ev, v := stripNot(e, val)
+		if r := fact(ev, v); r != 0 {
+			return r
+		}
+		if r := phiFact(ev, v, fact, depth+1); r != 0 {
+			return r
+		}
+	}
+	for _, cf := range dominatingConds(phi.Block().Preds[idx]) {
+		cv, v := stripNot(cf.Cond, cf.Val)
+		if r := fact(cv, v); r > 0 {
+			return r
+		}
+		if r := phiFact(cv, v, fact, depth+1); r > 0 {
+			return r
+		}
+	}
+	// the branch that ends the predecessor block itself
+	pred := phi.Block().Preds[idx]
+	if iff, isIf := lastInstr(pred).(*ssa.If); isIf && len(pred.Succs) == 2 && pred.Succs[0] != pred.Succs[1] {
+		took := pred.Succs[0] == phi.Block()
+		cv, v := stripNot(iff.Cond, took)
+		if r := fact(cv, v); r > 0 {
+			return r
+		}
+	}
+	return 0
+}
+
+// phiAll: cond is a boolean phi; pred holds for EVERY way in which the phi can
+// have value val: an edge carrying the constant val must come from a block that
+// is reached only under a condition satisfying pred; any other edge value must
+// satisfy pred itself. Used for "the whole false side of a && b is exempt when
+// ¬a is exempt and ¬b is exempt".
+func phiAll(cond ssa.Value, val bool, pred func(ssa.Value, bool) bool) bool {
+	phi, ok := cond.(*ssa.Phi)
+	if !ok || phi.Type().String() != "bool" || len(phi.Edges) == 0 {
+		return false
+	}
+	for i, e := range phi.Edges {
+		if isBoolConst(e, !val) {
+			continue
+		}
+		if i >= len(phi.Block().Preds) {
+			return false
+		}
+		if !isBoolConst(e, val) {
+			ev, v := stripNot(e, val)
+			if !pred(ev, v) {
+				return false
+			}
+			continue
+		}
+		p := phi.Block().Preds[i]
+		found := false
+		for _, cf := range dominatingConds(p) {
+			if pred(cf.Cond, cf.Val) {
+				found = true
+			}
+		}
+		if iff, isIf := lastInstr(p).(*ssa.If); isIf && len(p.Succs) == 2 && p.Succs[0] != p.Succs[1] {
+			if pred(iff.Cond, p.Succs[0] == phi.Block()) {
+				found = true
+			}
+		}
+		if !found {
+			return false
+		}
+	}
+	return true
+}
